@@ -72,7 +72,7 @@ static int spec_dest(uint8_t type, const uint8_t *m, int di, unsigned *need) {
 		return (on || off) ? D_STATE : D_ERRQ; }
 	case MSG_CS_DRIVE_EVENT: *need = 1; return m[di] == 1 ? D_ERRQ : D_STATE;
 	case MSG_SYS_MAGIC: case MSG_NODETAB_COUNT: case MSG_NODETAB: case MSG_FEATURE_COUNT: case MSG_FEATURE: return D_INTQ;
-	case MSG_SYS_ERROR: *need = 2; return D_ERRQ;           /* error code + parameter byte */
+	case MSG_SYS_ERROR: *need = 1; return D_ERRQ;           /* error code; the parameter byte is optional (several codes have none) */
 	case MSG_NODE_NA: case MSG_FEATURE_NA: case MSG_LC_NA: return D_ERRQ;
 	case MSG_BM_POSITION: *need = 3; return D_MSGQ;
 	case MSG_VENDOR: *need = 2; return D_MSGQ;              /* the two length bytes */
